@@ -54,6 +54,8 @@ DEVICES = {
     "virt_once": dict(type="virtual", name="VirtO", channels=CH + [MW], dmms=DMMS,
                       supports_slm_mask=True, reusable_channels=False, dimensions=2),
 }
+# the physical device with room for very little: calls get refused for length, not for mode
+DEVICES["phys_short"] = dict(DEVICES["phys"], name="PhysS", max_sequence_duration=150)
 REG = dict(dim=2, ids=["q0", "q1", "q2"], coords=[[0.0, 0.0], [6.0, 0.0], [0.0, 6.0]])
 PULSE = dict(k="const_pulse", d=52, amp=2.0, det=-1.0, phase=0.0)
 
@@ -379,6 +381,12 @@ def check(case, ctx: Ctx):
         if status == "raised_arg":
             ctx.fail(C, f"argument_construction:{op['op']}", f"{op}: {exc}")
         ok = status == "ok"
+        if (verdict == "accept" and not ok and DEVICES[case["dev"]].get("max_sequence_duration")
+                and "maximum duration" in str(exc)):
+            # refused because the sequence would get too long - not a matter of mode; what matters
+            # here is that the mode afterwards is the mode before (the model is not advanced)
+            ctx.label("refused_for_length")
+            verdict = "unspec"
         if verdict == "accept" and not ok:
             ctx.fail(C, f"refused:{op['op']}" + (":ro:" + op["what"] if op["op"] == "ro" else ""),
                      f"{case['dev']}: model says {op} must be accepted in state "
@@ -496,6 +504,21 @@ def enum_small_eom(tier):
                 yield dict(dev="phys", calls=pre + [SMALL_EOM[i] for i in combo])
 
 
+# ---- fourth exhaustive space: a device with room for 150 ns only (refusals for length)
+SMALL_SHORT = [
+    dict(kind="enable_eom", a=0, b=0), dict(kind="add_eom", a=0, b=0), dict(kind="disable_eom", a=0, b=0),
+    dict(kind="modify_eom", a=0, b=0), dict(kind="add", a=0, b=1), dict(kind="delay", a=0, b=0),
+    dict(kind="measure", a=0, b=0),
+]
+
+
+def enum_small_short(tier):
+    depth = 5 if tier == "thorough" else 4
+    for n in range(1, depth + 1):
+        for combo in itertools.product(range(len(SMALL_SHORT)), repeat=n):
+            yield dict(dev="phys_short", calls=[dict(kind="declare", a=0, b=0)] + [SMALL_SHORT[i] for i in combo])
+
+
 CLAUSES = [
     Clause("typestate", check, gen=lambda t: call_seqs(t),
            budget={"quick": (16, 1500), "thorough": (16, 40000)},
@@ -510,4 +533,9 @@ CLAUSES = [
            budget={"quick": (8, 0), "thorough": (16, 0)}, exhaustive=True,
            doc="an EOM channel and a variable declared, then all sequences of <=4 (quick) / <=5 (thorough) calls "
                "from {use variable, enable/modify/disable EOM, EOM pulse, measure, delay}"),
+    Clause("typestate_short_device_exhaustive", check, enum=enum_small_short,
+           budget={"quick": (8, 0), "thorough": (16, 0)}, exhaustive=True,
+           doc="device limited to 150 ns: one channel declared, then all sequences of <=4 (quick) / <=5 (thorough) "
+               "calls from {enable/modify/disable EOM, EOM pulse, pulse, delay, measure}; a call refused for "
+               "length leaves the mode as it was"),
 ]
